@@ -12,6 +12,7 @@ mod p06;
 mod p07;
 mod p09;
 mod strspec;
+mod specexec;
 mod p03;
 mod p10;
 mod p11;
